@@ -429,6 +429,18 @@ Qed.
 Section WithHash.
   Variable sha256 : bytes -> bytes.
 
+  (* coinbase_tx writes its argument VERBATIM after 6a24aa21a9ed: read as "the witness merkle root" (the parameter's
+     name and docstring) the output is the BIP141 commitment to that root only if the root is a fixed point of
+     r |-> hash256(r ++ reserved); the argument has to be the commitment hash itself *)
+  Theorem commitment_arg_is_the_hash root : length root = 32%nat ->
+    (commit_spk (Some root) = Ok (Some (commitment_script (commitment_hash sha256 root witness_reserved_value)))
+     <-> commitment_hash sha256 root witness_reserved_value = root).
+  Proof.
+    intros L. rewrite (commit_spk_32 root L). split.
+    - intros E. apply ok_inj in E. injection E as E. symmetry. exact E.
+    - intros ->. reflexivity.
+  Qed.
+
   (* what mine_block passes as witness_merkle_root_hash is the BIP141 commitment hash of the block's
      witness root *)
   Theorem mine_block_commitment_is_bip141 wtxids :
